@@ -64,7 +64,7 @@ impl KnownFindings {
     pub fn matches(&self, engine: &str, class: &str, features: &BTreeSet<String>) -> Option<String> {
         self.open_for(engine)
             .find(|e| {
-                e.class == class
+                e.class.split('|').any(|c| c == class)
                     && e.requires.iter().all(|r| features.contains(r))
                     && !e.forbids.iter().any(|f| features.contains(f))
             })
